@@ -113,11 +113,14 @@ def fk_trace(data: bytes, on_step=None):
 class World:
     """Event log shared by the stand-ins of one run."""
 
-    def __init__(self):
+    def __init__(self, permissive=False):
         self.events = []
         self.nobj = 0
         self.globals = {}
         self.flags = set()
+        # permissive: opaque objects also accept .append / .extend / .add (what APPEND / APPENDS / ADDITEMS
+        # call on a non-list target).  Off by default: the Coq reference model declines those programs.
+        self.permissive = permissive
 
     def global_stub(self, module, name):
         """one stand-in per (module, name): resolving a global twice yields the same object"""
@@ -164,6 +167,24 @@ class Stub:
     def update(self, d):
         for k, v in d.items():
             self._w.events.append(("setitem", self, k, v))
+
+    # APPEND / APPENDS / ADDITEMS on an object (a deque, a list or set subclass made by REDUCE / NEWOBJ):
+    # the pickle VM calls these methods; the stand-in accepts them like the real object would
+    def append(self, v):
+        if not self._w.permissive:
+            raise AttributeError("append")
+        self._w.events.append(("append", self, v))
+
+    def extend(self, vs):
+        if not self._w.permissive:
+            raise AttributeError("extend")
+        for v in vs:
+            self._w.events.append(("append", self, v))
+
+    def add(self, v):
+        if not self._w.permissive:
+            raise AttributeError("add")
+        self._w.events.append(("add", self, v))
 
     def __repr__(self):
         return f"<stub {self._kind} {self._id}>"
@@ -230,9 +251,9 @@ def _wrap(fn):
 RefUnpickler.dispatch = {k: _wrap(f) for k, f in pickle._Unpickler.dispatch.items()}
 
 
-def vm_trace(data: bytes):
+def vm_trace(data: bytes, permissive=False):
     """Run the instrumented reference VM; returns (shape trace incl. 'ERR', value or None, world)."""
-    w = World()
+    w = World(permissive)
     u = RefUnpickler(data, w)
     u.trace = []
     value = None
